@@ -88,21 +88,43 @@ def main():
         plan.append(build(cid, ctx, toks, kind, opts or {"add_standard_prefix": False}))
 
     n_extra = 3000 if not thorough else 0
-    for t in num:
+    # thorough: the enumeration with three operators is larger than a run can judge (tens of GB of cases); a sample of it
+    for t in (gen.sample(rng, num, 40000) if thorough else num):
         add("assign", t, "num")
     for t in gen.sample(rng, [x for x in num3 if sum(1 for y in x if y not in ("A", "B", "2", ")")) >= 3], n_extra):
         add("assign", t, "num")
     others = gen.sample(rng, num, 20000 if thorough else 700)
     for i, t in enumerate(others):
         add(["print", "for", "sub", "on", "if", "ifelse", "ifgoto"][i % 7], t, "num")
-    for t in (cond if thorough else gen.sample(rng, cond, 2500)):
+    for t in gen.sample(rng, cond, 30000 if thorough else 2500):
         add("if", t, "str")
     for i, t in enumerate(gen.sample(rng, cond, 6000 if thorough else 900)):
         add(["ifelse", "ifgoto"][i % 2], t, "str")
-    for t in (funs if thorough else gen.sample(rng, funs, 1200)):
+    for t in gen.sample(rng, funs, 15000 if thorough else 1200):
         add("assign", t, "str")
-    for t in (strs if thorough else gen.sample(rng, strs, 1200)):
+    for t in gen.sample(rng, strs, 15000 if thorough else 1200):
         add("sassign", t, "str")
+    # nested groups (beyond the operator bound of the enumeration): a group that holds two groups, a group and a call, a
+    # group and an array element, a doubled group -- every operator at each of the three places
+    ops = ["+", "-", "*", "/"]
+    shapes = ["2 {a} ( ( A {b} B ) {c} ( B {b} 3 ) )", "2 {a} ( ( A {b} B ) {c} ABS ( B ) )", "2 {a} ( ABS ( A ) {c} ( B {b} 3 ) )", "2 {a} ( ( A {b} B ) {c} 3 )",
+              "2 {a} ( A {c} ( B {b} 3 ) )", "( ( A {b} B ) ) {a} 2", "( ( A {b} B ) {c} ( B {b} 3 ) ) {a} 2", "2 {a} ( ( A {b} B ) )",
+              "2 {a} ( ( ( A {b} B ) {c} 3 ) {b} ( A ) )", "- ( ( A {b} B ) {c} ( B {b} 3 ) )", "2 {a} ( - ( A {b} B ) {c} ( B ) )"]
+    for sh in shapes:
+        for a in ops:
+            for b in (ops if thorough else ["+", "-"]):
+                for c in ops:
+                    add("assign", sh.format(a=a, b=b, c=c).split(), "num")
+    for sh in shapes[:5]:
+        for a in ops[:2]:
+            for c in ops:
+                add("if", (sh.format(a=a, b="+", c=c) + " = 1").split(), "num")
+                add("ifgoto", (sh.format(a=a, b="-", c=c) + " > 1").split(), "num")
+    # every spelling of every comparison, numeric and string, as a condition (comparisons as values are outside the fragment)
+    for op in ["=", "<", ">", "<=", ">=", "<>", "=<", "=>", "><"]:
+        for ctx in ("if", "ifelse", "ifgoto"):
+            add(ctx, ["A", op, "B"], "num")
+            add(ctx, ["A$", op, "B$"], "str")
     # a slice with the standard prologue and pre-initialisation switched on
     for t in gen.sample(rng, num, 2000 if thorough else 150):
         add("assign", t, "num", {"initialize_vars": True})
